@@ -460,7 +460,11 @@ impl World {
         let parent = self.chain_of(c, g, None);
         self.set_override(ts, rank);
         let mut added: Vec<String> = vec![];
-        let rot_nid: [u8; 32] = rand::random();
+        let rot_nid: [u8; 32] = match arg.as_str().filter(|a| a.starts_with('=')) {
+            // hostile admin: rotate onto an id that already belongs to another group
+            Some(a) => self.nids.iter().find(|(_, n)| n.as_str() == &a[1..]).map(|(k, _)| *k).unwrap_or_else(rand::random),
+            None => rand::random(),
+        };
         let arg_owned: Value = if kind == "rotate" { json!(self.nid_name(&rot_nid)) } else if kind == "self_update" { json!("") } else { arg.clone() };
         let arg = &arg_owned;
         let cl = &self.clients[c];
